@@ -1525,16 +1525,21 @@ class _Collect:
         pass
 
 
-def violates(ctx, plan, req, fs, off, mx, version, kind, page_size=None):
+def violates(ctx, plan, req, fs, off, mx, version, kind, page_size=None, wire=False):
     col = _Collect()
     try:
         store = Store(ctx, plan, build_policies(ctx))
     except RuntimeError:
         return None
     try:
-        full = run_locate(store, req, fs, None, None, version)
-        obs = full if (off is None and mx is None) else run_locate(store, req, fs, off, mx, version)
-        oracle_check(col, store, req, fs, off, mx, version, obs, full)
+        loc = run_locate_wire if wire else run_locate
+        if wire:
+            store.extra = {'through_decoder': True}
+        full = loc(store, req, fs, None, None, version)
+        obs = full if (off is None and mx is None) else loc(store, req, fs, off, mx, version)
+        if obs['reason'] == 'DECODE':
+            return None
+        oracle_check(col, store, req, fs, off, mx, version, obs, full if full['reason'] != 'DECODE' else None)
         if page_size:
             pages_check(col, store, req, fs, version, full, page_size)
     finally:
@@ -1557,6 +1562,7 @@ def shrink_first_violation(ctx):
     plan, fs = list(w['plan']), list(w['filters'])
     req = (w['requester'][0], w['requester'][1])
     off, mx, version, ps = w.get('offset'), w.get('maximum'), tuple(w.get('version') or (1, 2)), w.get('page_size')
+    wire = bool(w.get('through_decoder'))
     best, budget, changed = None, 80, True
     if len(plan) > 40:
         # large store: remove chunks (halving sizes) under a wall-clock budget, then go on one at a time if small enough
@@ -1567,7 +1573,7 @@ def shrink_first_violation(ctx):
             i = 0
             while i < len(plan) and _t.time() < deadline:
                 cand = plan[:i] + plan[i + chunk:]
-                r = violates(ctx, cand, req, fs, off, mx, version, kind, ps)
+                r = violates(ctx, cand, req, fs, off, mx, version, kind, ps, wire)
                 if r:
                     plan, best = cand, r
                 else:
@@ -1575,7 +1581,7 @@ def shrink_first_violation(ctx):
             chunk //= 2
         for j in range(len(fs) - 1, -1, -1):
             cand = fs[:j] + fs[j + 1:]
-            r = violates(ctx, plan, req, cand, off, mx, version, kind, ps)
+            r = violates(ctx, plan, req, cand, off, mx, version, kind, ps, wire)
             if r:
                 fs, best = cand, r
         changed = len(plan) <= 40
@@ -1584,7 +1590,7 @@ def shrink_first_violation(ctx):
         for i in range(len(plan) - 1, -1, -1):
             cand = plan[:i] + plan[i + 1:]
             budget -= 1
-            r = violates(ctx, cand, req, fs, off, mx, version, kind, ps)
+            r = violates(ctx, cand, req, fs, off, mx, version, kind, ps, wire)
             if r:
                 plan, best, changed = cand, r, True
             if budget <= 0:
@@ -1592,7 +1598,7 @@ def shrink_first_violation(ctx):
         for j in range(len(fs) - 1, -1, -1):
             cand = fs[:j] + fs[j + 1:]
             budget -= 1
-            r = violates(ctx, plan, req, cand, off, mx, version, kind, ps)
+            r = violates(ctx, plan, req, cand, off, mx, version, kind, ps, wire)
             if r:
                 fs, best, changed = cand, r, True
             if budget <= 0:
@@ -1652,8 +1658,9 @@ def replay(ctx, payload):
     try:
         req = (w['requester'][0], w['requester'][1])
         fs = w['filters']
-        obs = run_locate(store, req, fs, w.get('offset'), w.get('maximum'), w.get('version') or (1, 2))
-        full = run_locate(store, req, fs, None, None, w.get('version') or (1, 2))
+        loc = run_locate_wire if w.get('through_decoder') else run_locate
+        obs = loc(store, req, fs, w.get('offset'), w.get('maximum'), w.get('version') or (1, 2))
+        full = loc(store, req, fs, None, None, w.get('version') or (1, 2))
         print('store   :', json.dumps(store.objs))
         print('request : requester=%r filters=%r offset=%r maximum=%r' % (req, fs, w.get('offset'), w.get('maximum')))
         print('observed:', obs)
